@@ -80,8 +80,17 @@ def plan(tier, seed):
                  "mixed", "allsh", "mixed", "allwf", "wf0cap", "mixed"]
         R, steps = 48, 7000
     jobs = []
+    forced = None
+    if os.environ.get("VERIF_C01_CONFIG"):
+        # investigation aid: one given configuration, R replicas x steps
+        import json
+        forced = json.loads(os.environ["VERIF_C01_CONFIG"])
+        R, steps = forced.pop("R", R), forced.pop("steps", steps)
+        kinds = ["forced"]
     for ci, kind in enumerate(kinds):
-        cfg = _config(rng, kind)
+        cfg = _config(rng, kind) if forced is None else dict(
+            {"workers": 1, "policy": "fifo", "n_jumps": 2, "wall": -3,
+             "cap": None, "kind": "forced"}, **forced)
         for r in range(R):
             spec = dict(cfg, steps=steps, seed=rng.randrange(2 ** 31),
                         adv_seed=rng.randrange(2 ** 31), maxlength=2000,
